@@ -45,9 +45,9 @@ func (r *Rng) Intn(n int) int {
 
 // Range returns a value in [lo,hi].
 func (r *Rng) Range(lo, hi int) int { return lo + r.Intn(hi-lo+1) }
-func (r *Rng) Bool() bool          { return r.U64()&1 == 1 }
-func (r *Rng) Chance(pct int) bool { return r.Intn(100) < pct }
-func Pick[T any](r *Rng, xs []T) T { return xs[r.Intn(len(xs))] }
+func (r *Rng) Bool() bool           { return r.U64()&1 == 1 }
+func (r *Rng) Chance(pct int) bool  { return r.Intn(100) < pct }
+func Pick[T any](r *Rng, xs []T) T  { return xs[r.Intn(len(xs))] }
 
 // Fork derives an independent generator (so that adding choices in one place does not shift others).
 func (r *Rng) Fork() *Rng { return NewRng(r.U64()) }
@@ -232,4 +232,11 @@ func Seed() uint64 {
 		}
 	}
 	return 1
+}
+
+// Shuffle permutes n elements (Fisher–Yates) through swap.
+func (r *Rng) Shuffle(n int, swap func(i, j int)) {
+	for i := n - 1; i > 0; i-- {
+		swap(i, r.Intn(i+1))
+	}
 }
